@@ -137,7 +137,8 @@ def check_same(sp, dim, prop, got, exp, clause, detail):
 
 
 # ------------------------------------------------------------------------------------------ harness
-def h_transform(sp, dim=2, L=2, n_tr=2, n_all=1, ctor_bits=False, ranges=True, ctor_ranges=True, boom=False):
+def h_transform(sp, dim=2, L=2, n_tr=2, n_all=1, ctor_bits=False, ranges=True, ctor_ranges=True, boom=False,
+                swap=False):
     cls = Transform2D if dim == 2 else Transform3D
     defaults = dict(position=(0,) * dim, rotation=0 if dim == 2 else (0,) * dim, scale=(1,) * dim)
 
@@ -222,6 +223,19 @@ def h_transform(sp, dim=2, L=2, n_tr=2, n_all=1, ctor_bits=False, ranges=True, c
     # ---- assignments
     for k, (i, p, v) in enumerate(steps):
         t = transforms[i]
+        if swap and k and sp.flag('swap-listener-before-step%d' % k):
+            # between two assignments one all-event listener of this transform is removed and a fresh one is
+            # registered: the number of listeners of every event is the same as before
+            idx = next(j for j, (li, where) in enumerate(listeners) if type(li) is LAll and where == (i,))
+            old_li = listeners[idx][0]
+            t.remove_handler(old_li)
+            old_li.on = []
+            listeners[idx] = (old_li, ())
+            new_li = LAll('LAll@T%d(registered before step %d)' % (i, k))
+            new_li.attach(i, t)
+            listeners.append((new_li, (i,)))
+            sp.note('T%d: listener %s removed, fresh listener %s registered' % (i, old_li.name, new_li.name))
+            sp.cover('listener-swapped')
         before = read_all(transforms)
         counts = [len(li.calls) for li, _ in listeners]
         sp.note('T%d.%s = %r' % (i, p, v))
@@ -344,6 +358,14 @@ HARNESSES = {
                                  'ctor-rotation-360-or-more'],
                      required=_RANGE_TAGS + ['rotation2d-assigned', 'vector-assigned', 'listener-called',
                                              'ctor-value', 'ctor-default', 'two-default-instances']),
+    # same harness; between two assignments a listener may be removed and a fresh one registered (same count)
+    't2d_swap': dict(fn=h_t2d, concolic=True, nonlinear=True,
+                     nontrivial=['listener-swapped', 'same-property-twice'],
+                     required=['rotation2d-assigned', 'vector-assigned', 'listener-called', 'listener-swapped',
+                               'same-property-twice']),
+    't3d_swap': dict(fn=h_t3d, concolic=True,
+                     nontrivial=['listener-swapped', 'same-property-twice'],
+                     required=['vector-assigned', 'listener-called', 'listener-swapped', 'same-property-twice']),
     't3d': dict(fn=h_t3d, concolic=True,
                 nontrivial=['same-property-twice', 'other-transform-next', 'ctor-value'],
                 required=['vector-assigned', 'listener-called', 'ctor-value', 'ctor-default',
@@ -356,8 +378,12 @@ TIERS = {
         ('t3d', dict(L=2, n_tr=2, n_all=1)),
         ('t2d_boom', dict(L=2, n_tr=2, n_all=1, boom=True, ranges=False)),
         ('t3d_boom', dict(L=2, n_tr=2, n_all=1, boom=True)),
+        ('t2d_swap', dict(L=2, n_tr=1, n_all=2, swap=True, ranges=False)),
+        ('t3d_swap', dict(L=2, n_tr=1, n_all=2, swap=True)),
     ],
     'thorough': [
+        ('t2d_swap', dict(L=3, n_tr=2, n_all=2, swap=True, ranges=False)),
+        ('t3d_swap', dict(L=3, n_tr=1, n_all=2, swap=True)),
         ('t2d_seq', dict(L=3, n_tr=2, n_all=2, ctor_ranges=False)),
         ('t2d_ctor', dict(L=1, n_tr=2, n_all=1, ctor_bits=True)),
         ('t2d', dict(L=2, n_tr=2, n_all=1)),
@@ -386,7 +412,8 @@ BOUNDS = {
     'quick': '2 transforms, each default-constructed or with three symbolic constructor values; 6 listeners per '
              'transform (one per event, one for all events, one shared by all transforms); every sequence of 2 '
              'assignments; values unbounded reals; both for Transform2D and Transform3D; the same again with an '
-             'additional listener raising during assignment 0, 1 or never',
+             'additional listener raising during assignment 0, 1 or never; swap entries: 1 transform with 4 listeners per event, 2 assignments, '
+             'optionally one listener removed and a fresh one registered between them',
     'thorough': 'Transform2D: every sequence of 3 assignments on 2 transforms (2 all-event listeners each); 1 assignment '
                 'with each constructor argument separately given or defaulted; every sequence of 2 assignments on 3 '
                 'transforms.  Transform3D: 3 assignments on 2 transforms with separate constructor bits; 2 assignments '
